@@ -258,8 +258,11 @@ def classify(r):
     alias = [a for a in r.get("alias", []) if a["cls"] != "benign-same-typed-value"]
     if not any(p.get("text") for p in r.get("prints", [])):
         alias = []  # nothing was emitted
+    mm = ((r.get("exec") or {}).get("mismatches") or [None])[0]
     for a in alias:
-        out.append((f"alias:{a['cls']}", f"distinct sub-expressions {a['kinds']} share the variable `{a['ref']}`"))
+        out.append((f"alias:{a['cls']}", f"distinct sub-expressions {a['kinds']} share the variable `{a['ref']}`" +
+                    (f" (typed values {a['typed_values']})" if a.get("typed_values") else "") +
+                    (f"; bit-level consequence: {mm['why']} inputs={json.dumps(mm['inputs'])}" if mm else "")))
     stream = r.get("stream", "")
     kindtag = stream.split(":", 2)[2] if stream.startswith("directed:") else None
     texts = [p["text"] for p in r.get("prints", []) if p.get("text")]
